@@ -1236,7 +1236,7 @@ func init() {
 			"random / homopolymer-rich / tandem-repeat / two-letter templates; substitutions and indels at 0..10 %, IUPAC symbols at 0..10 %, eight quality profiles over 0..93) x {exact, fast-relative, fast-absolute} x delta {0,1,2,5,10,20} x gap {0.5..4} x scale {0.5..2}, " +
 			"streams of 24 pairs through ONE arena and shift map of varying initial size; plus the exhaustive grid of read lengths 1..9 x 1..9 in both modes. The real PEAlign / PELeftAlign / PERightAlign / BuildQualityConsensus / AssemblePESequences run on every pair; " +
 			"the oracle is written from the documented end-gap-free scheme (harness/ref/c08_pe.go). " +
-			"Added later: concurrent sub-check (one arena per goroutine, 2-16 goroutines, results compared with those obtained alone). min-identity thresholds placed on and a hair beside the identity of the overlap under test. " +
+			"Added later: concurrent sub-check (one arena per goroutine, 2-16 goroutines, results compared with those obtained alone). min-identity thresholds placed on and a hair beside the identity of the overlap under test. A read object whose content is replaced in place between two alignments with the same arena; first-call: the first alignment of a fresh process (no table read before) compared with the same alignment made later and with the score along its path. " +
 			"distinct_nontrivial = distinct (sub-check, geometry, code branch exact|fast-identical|fast-dp x left|right, mode, length classes of both reads, errors present, IUPAC present, quality profile, sub-check specific class) among pairs whose reads both hold a 4-mer and whose path has at least one paired column",
 		Assume: []string{
 			"reads are non-empty, over the lower-case IUPAC nucleotide alphabet, with qualities 0..93; B is given in the orientation of A",
@@ -1256,6 +1256,7 @@ func init() {
 			{Name: "stats", N: core.Const(400, 4000), Run: runStats},
 			{Name: "reassembly", N: core.Const(560, 6000), Run: runReassembly},
 			{Name: "arena", N: core.Const(300, 3000), Run: runArena},
+			{Name: "first-call", N: core.Const(12, 60), Run: runFirst},
 			{Name: "concurrent", N: core.Const(16, 128), Run: runConcurrent, Race: true, NRace: core.Const(4, 16), TimeoutS: 600},
 		},
 		RaceFiles:     []string{"pkg/obialign/pairedendalign.go", "pkg/obialign/alignment.go", "pkg/obialign/backtracking.go", "pkg/obialign/dnamatrix.go", "pkg/obikmer/encodefourmer.go", "pkg/obitools/obipairing/"},
